@@ -40,6 +40,10 @@ func (g *Generator) genAttributeStringOctets(w io.Writer, attr *dictionary.Attri
 	p(w, `	}`)
 	if attr.HasTag() {
 		p(w, `	if tag <= 0x1F {`)
+		p(w, `		if len(a) > 252 {`)
+		p(w, `			err = errors.New("value too long")`)
+		p(w, `			return`)
+		p(w, `		}`)
 		p(w, `		a = append(radius.Attribute{tag}, a...)`)
 		p(w, `	}`)
 	}
@@ -76,6 +80,10 @@ func (g *Generator) genAttributeStringOctets(w io.Writer, attr *dictionary.Attri
 	p(w, `	}`)
 	if attr.HasTag() {
 		p(w, `	if tag <= 0x1F {`)
+		p(w, `		if len(a) > 252 {`)
+		p(w, `			err = errors.New("value too long")`)
+		p(w, `			return`)
+		p(w, `		}`)
 		p(w, `		a = append(radius.Attribute{tag}, a...)`)
 		p(w, `	}`)
 	}
@@ -366,6 +374,10 @@ func (g *Generator) genAttributeStringOctets(w io.Writer, attr *dictionary.Attri
 	p(w, `	}`)
 	if attr.HasTag() {
 		p(w, `	if tag <= 0x1F {`)
+		p(w, `		if len(a) > 252 {`)
+		p(w, `			err = errors.New("value too long")`)
+		p(w, `			return`)
+		p(w, `		}`)
 		p(w, `		a = append(radius.Attribute{tag}, a...)`)
 		p(w, `	}`)
 	}
@@ -402,6 +414,10 @@ func (g *Generator) genAttributeStringOctets(w io.Writer, attr *dictionary.Attri
 	p(w, `	}`)
 	if attr.HasTag() {
 		p(w, `	if tag <= 0x1F {`)
+		p(w, `		if len(a) > 252 {`)
+		p(w, `			err = errors.New("value too long")`)
+		p(w, `			return`)
+		p(w, `		}`)
 		p(w, `		a = append(radius.Attribute{tag}, a...)`)
 		p(w, `	}`)
 	}
